@@ -11,13 +11,18 @@ CVC5 = "/usr/bin/cvc5"
 
 
 def _solve_one(job):
-    idx, smt2, use_cvc5, strings = job
+    idx, smt2, use_cvc5, strings = job[:4]
+    quick = len(job) > 4 and job[4]
     import z3
     t0 = time.time()
     res, backend, info = "unknown", "z3-5.1.0", ""
+    if quick:
+        use_cvc5 = False
     try:
         s = z3.Solver()
-        s.set("timeout", Z3_TIMEOUT_MS)
+        # string VCs: z3's sequence solver is unstable on identical input; give it a short first try, then cvc5, then z3 again
+        first_budget = 5000 if quick else (15000 if (strings and use_cvc5) else Z3_TIMEOUT_MS)
+        s.set("timeout", first_budget)
         s.from_string(smt2)
         r = s.check()
         res = str(r)
@@ -43,6 +48,16 @@ def _solve_one(job):
                 info += " | cvc5: " + (out or p.stderr.strip()[:200])
         except Exception as e:  # noqa
             info += " | cvc5 error " + repr(e)
+    if res in ("unknown", "error") and strings and not quick and use_cvc5:
+        try:
+            s = z3.Solver()
+            s.set("timeout", Z3_TIMEOUT_MS)
+            s.from_string(smt2)
+            r = s.check()
+            if r != z3.unknown:
+                res, backend = str(r), "z3-5.1.0"
+        except Exception as e:  # noqa
+            info += " | z3 retry " + repr(e)
     return idx, res, backend, time.time() - t0, info
 
 
@@ -58,7 +73,7 @@ def discharge(obligations, jobs=None, use_cvc5=True):
             continue
         smt2 = ob.smt2()
         strings = "String" in smt2 or "str." in smt2
-        work.append((i, smt2, use_cvc5, strings))
+        work.append((i, smt2, use_cvc5, strings, ob.kind == "canary"))
     if work:
         if len(work) == 1 or jobs == 1:
             results = [_solve_one(w) for w in work]
